@@ -83,6 +83,10 @@ func RegisterInternalMessage[T any](messageName string, reader InternalMessageRe
 }
 
 func QueryMessageDesc(message any) *MessageDesc {
+	// nil 或非指针消息不可能是已注册的内置消息（注册类型均为指针），按外部消息处理；否则下面的 Elem() 会直接 panic
+	if t := reflect.TypeOf(message); t == nil || t.Kind() != reflect.Ptr {
+		return outsideMessageDesc
+	}
 	tof := reflect.TypeOf(message).Elem()
 	desc, ok := internalMessageTypeOfDesc[tof]
 	if ok {
@@ -100,6 +104,9 @@ func QueryMessageDescByName(messageName string) *MessageDesc {
 }
 
 func SerializeRemotingMessage(codec Codec, writer *Writer, desc *MessageDesc, message any) error {
+	if rv := reflect.ValueOf(message); rv.Kind() == reflect.Ptr && rv.IsNil() {
+		return fmt.Errorf("cannot serialize nil message: %T", message)
+	}
 	dw := NewWriterFromPool()
 	defer ReleaseWriterToPool(dw)
 	if err := desc.writer(message, dw, codec); err != nil {
